@@ -279,7 +279,7 @@ theorem allocTasksIter_spec (s : Sys) (now : Time) (orc : Oracle) (oid : Oid)
   all_goals first
     | (simp [Pre, Yield.unit, updPlan, addSch, addBuf, hu]; done)
     | (refine ⟨Pre.trans ?_ (processCurrentSchedule_pre _ _ _ _ _), by simp [Yield.unit]⟩
-       simp [Pre, Yield.unit, updPlan, addSch, addBuf, hu])
+       simp [Pre, updPlan, hu])
 
 theorem allocTasksBlock_spec (s : Sys) (now : Time) (orc : Oracle) (pc : Nat) (oid : Oid)
     (schedule pairs : List (Tid × Mid)) (pool : List Tid) (fin : Bool) :
@@ -394,8 +394,8 @@ theorem resume_cases (s : Sys) (pid : Nat) (orc : Oracle) :
     | false => left; simp [ha]
     | true =>
       right
-      refine ⟨q, rfl, rfl, ?_⟩
-      simp only [Bool.not_true, Bool.false_eq_true, if_false]
+      refine ⟨q, rfl, ha, ?_⟩
+      simp only [ha, Bool.not_true, Bool.false_eq_true, if_false]
       generalize s.block q orc = r
       obtain ⟨s1, k, y⟩ := r
       cases y with
@@ -495,78 +495,369 @@ end Sys
 
 /-! ### the handler -/
 
-theorem failPid_ne_zero : failPid ≠ 0 := by decide
+/-- the shape of the handler: the popped event is a failure (the exception
+leaves `env.run`), or one block of a live process runs -/
+theorem simHandler_cases (env : SimEnv) (s : Sys) (pid : Nat) (now : Time) :
+    (simHandler env s pid now = ({ s with halted := true }, [], none) ∧
+      ∀ q, s.proc? pid = some q → q.alive = false) ∨
+    ((simHandler env s pid now).1 = (s.resume pid (env.oracle s)).1 ∧
+     (simHandler env s pid now).2.1 =
+       (List.range ((s.resume pid (env.oracle s)).1.nextPid - s.nextPid)).map (· + s.nextPid) ∧
+     (simHandler env s pid now).2.2 =
+       match (s.resume pid (env.oracle s)).2 with
+       | .timeout d => some d
+       | .done => none
+       | .raised _ => some 0) := by
+  unfold simHandler
+  split
+  · rename_i heq
+    left; exact ⟨rfl, fun q hq => by rw [heq] at hq; cases hq⟩
+  · split
+    · rename_i p heq ha
+      left; exact ⟨rfl, fun q hq => by rw [heq] at hq; cases hq; simpa using ha⟩
+    · right
+      generalize s.resume pid (env.oracle s) = r
+      obtain ⟨s1, y⟩ := r
+      cases y <;> exact ⟨rfl, rfl, rfl⟩
 
-theorem simHandler_fail (env : SimEnv) (s : Sys) (now : Time) :
-    simHandler env s failPid now = ({ s with halted := true }, [], none) := by
-  simp [simHandler]
-
-theorem simHandler_st (env : SimEnv) (s : Sys) (pid : Nat) (now : Time) (h : pid ≠ failPid) :
-    (simHandler env s pid now).1 = (s.resume pid (env.oracle s)).1 := by
-  simp only [simHandler, h, if_false]
-  generalize s.resume pid (env.oracle s) = r
-  obtain ⟨s1, y⟩ := r
-  cases y <;> rfl
-
-theorem simHandler_yield (env : SimEnv) (s : Sys) (pid : Nat) (now : Time) (h : pid ≠ failPid) :
-    (simHandler env s pid now).2.2 =
-      match (s.resume pid (env.oracle s)).2 with
-      | .timeout d => some d
-      | _ => none := by
-  simp only [simHandler, h, if_false]
-  generalize s.resume pid (env.oracle s) = r
-  obtain ⟨s1, y⟩ := r
-  cases y <;> rfl
-
-theorem simHandler_spawned (env : SimEnv) (s : Sys) (pid : Nat) (now : Time) (h : pid ≠ failPid)
-    (hn : (s.resume pid (env.oracle s)).1.nextPid = s.nextPid) :
-    (∀ x ∈ (simHandler env s pid now).2.1, x = failPid) ∧
-    ((∃ d, (s.resume pid (env.oracle s)).2 = .timeout d) → (simHandler env s pid now).2.1 = []) := by
-  simp only [simHandler, h, if_false]
-  revert hn
-  generalize s.resume pid (env.oracle s) = r
-  obtain ⟨s1, y⟩ := r
-  intro hn
-  simp only at hn
-  cases y <;> simp [hn]
-
-/-- the facts about the handler the invariant needs -/
 theorem simHandler_isMon (env : SimEnv) (s : Sys) (pid : Nat) (now : Time) (h : s.isMon) :
     (simHandler env s pid now).1.isMon := by
-  by_cases hp : pid = failPid
-  · subst hp; rw [simHandler_fail]; exact h
-  · rw [simHandler_st env s pid now hp]; exact Sys.resume_isMon s pid _ h
+  rcases simHandler_cases env s pid now with ⟨hc, _⟩ | ⟨hc, _, _⟩
+  · rw [hc]; exact h
+  · rw [hc]; exact Sys.resume_isMon s pid _ h
 
 theorem simHandler_isDW (env : SimEnv) (s : Sys) (pid : Nat) (now : Time) (X : Nat)
     (h : s.isDW X) : (simHandler env s pid now).1.isDW X := by
-  by_cases hp : pid = failPid
-  · subst hp; rw [simHandler_fail]; exact h
-  · rw [simHandler_st env s pid now hp]; exact Sys.resume_isDW s pid _ X h
+  rcases simHandler_cases env s pid now with ⟨hc, _⟩ | ⟨hc, _, _⟩
+  · rw [hc]; exact h
+  · rw [hc]; exact Sys.resume_isDW s pid _ X h
 
+/-- a process that is not a `do_work` body is rescheduled one step later, or
+at the same instant as a failure event, or not at all -/
 theorem simHandler_unit (env : SimEnv) (s : Sys) (pid : Nat) (now : Time)
-    (hdw : ¬ s.isDW pid) (d : Time) (hy : (simHandler env s pid now).2.2 = some d) : d = 1 := by
-  by_cases hp : pid = failPid
-  · subst hp; rw [simHandler_fail] at hy; cases hy
-  · rw [simHandler_yield env s pid now hp] at hy
+    (hdw : ¬ s.isDW pid) (d : Time) (hy : (simHandler env s pid now).2.2 = some d) :
+    d = 1 ∨ d = 0 := by
+  rcases simHandler_cases env s pid now with ⟨hc, _⟩ | ⟨_, _, hc⟩
+  · rw [hc] at hy; cases hy
+  · rw [hc] at hy
     have hu := Sys.resume_unit s pid (env.oracle s) hdw
     revert hy hu
     generalize (s.resume pid (env.oracle s)).2 = y
-    cases y <;> simp [Yield.unit]
-    intro h1 h2; rw [← h2, h1]
+    cases y with
+    | timeout d' =>
+      simp only [Yield.unit, Option.some.injEq]
+      intro h1 h2; left; rw [← h1, h2]
+    | done => intro h1; cases h1
+    | raised e =>
+      simp only [Option.some.injEq]
+      intro h1 _; right; exact h1.symm
 
+/-- a `do_work` body starts no process -/
 theorem simHandler_quiet (env : SimEnv) (s : Sys) (pid : Nat) (now : Time)
-    (h : s.isDW pid ∨ pid = failPid) : ∀ x ∈ (simHandler env s pid now).2.1, x = failPid := by
-  by_cases hp : pid = failPid
-  · subst hp; rw [simHandler_fail]; simp
-  · rcases h with h | h
-    · exact (simHandler_spawned env s pid now hp (Sys.resume_dw_nextPid s pid _ h)).1
-    · exact absurd h hp
+    (h : s.isDW pid) : (simHandler env s pid now).2.1 = [] := by
+  rcases simHandler_cases env s pid now with ⟨hc, _⟩ | ⟨_, hc, _⟩
+  · rw [hc]
+  · rw [hc, Sys.resume_dw_nextPid s pid _ h]; simp
 
+/-- the monitor starts no process and always comes back one step later -/
 theorem simHandler_mon (env : SimEnv) (s : Sys) (now : Time) (h : s.isMon) :
     (simHandler env s 0 now).2.1 = [] ∧ (simHandler env s 0 now).2.2 = some 1 := by
   have hm := Sys.resume_mon s (env.oracle s) h
-  have h0 : (0 : Nat) ≠ failPid := fun h => failPid_ne_zero h.symm
-  refine ⟨(simHandler_spawned env s 0 now h0 hm.1).2 ⟨1, hm.2⟩, ?_⟩
-  rw [simHandler_yield env s 0 now h0, hm.2]
+  rcases simHandler_cases env s 0 now with ⟨_, hc⟩ | ⟨_, hc1, hc2⟩
+  · exfalso
+    obtain ⟨p, hp, _, ha⟩ := h
+    rw [hc p hp] at ha
+    cases ha
+  · rw [hc1, hc2, hm.1, hm.2]; simp
+
+/-! ### one kernel step, as a relation on heaps -/
+
+namespace KState
+
+variable {σ : Type}
+
+theorem pushInits_sub (ps : List Nat) (heap : List HEntry) (eid : Nat) (now : Time) (x : HEntry)
+    (hx : x ∈ heap) : x ∈ (pushInits heap eid now ps).1 := by
+  induction ps generalizing heap eid with
+  | nil => exact hx
+  | cons p ps ih => simp only [pushInits]; exact ih _ _ (List.mem_append_left _ hx)
+
+theorem pushInits_mem (ps : List Nat) (heap : List HEntry) (eid : Nat) (now : Time) (x : HEntry)
+    (hx : x ∈ (pushInits heap eid now ps).1) :
+    x ∈ heap ∨ (x.time = now ∧ x.prio = 0 ∧ x.pid ∈ ps) := by
+  induction ps generalizing heap eid with
+  | nil => exact Or.inl hx
+  | cons p ps ih =>
+    simp only [pushInits] at hx
+    rcases ih _ _ hx with h | ⟨h1, h2, h3⟩
+    · rcases List.mem_append.mp h with h | h
+      · exact Or.inl h
+      · simp only [List.mem_singleton] at h
+        subst h
+        exact Or.inr ⟨rfl, rfl, List.mem_cons_self⟩
+    · exact Or.inr ⟨h1, h2, List.mem_cons_of_mem _ h3⟩
+
+theorem pushInits_fresh (ps : List Nat) (heap : List HEntry) (eid : Nat) (now : Time)
+    (hlt : ∀ e ∈ heap, e.eid < eid) :
+    (∀ e ∈ (pushInits heap eid now ps).1, e.eid < (pushInits heap eid now ps).2) ∧
+    eid ≤ (pushInits heap eid now ps).2 := by
+  induction ps generalizing heap eid with
+  | nil => exact ⟨hlt, Nat.le_refl _⟩
+  | cons p ps ih =>
+    simp only [pushInits]
+    have hlt' : ∀ e ∈ heap ++ [(⟨now, 0, eid, p⟩ : HEntry)], HEntry.eid e < eid + 1 := by
+      intro e he
+      rcases List.mem_append.mp he with he | he
+      · have := hlt e he; omega
+      · simp only [List.mem_singleton] at he; subst he; simp
+    obtain ⟨h2, h3⟩ := ih (heap ++ [⟨now, 0, eid, p⟩]) (eid + 1) hlt'
+    exact ⟨h2, by omega⟩
+
+theorem peek_spec (k : KState σ) (e : HEntry) (h : k.peek = some e) :
+    e ∈ k.heap ∧ ∀ x ∈ k.heap, x.lt e = false := by
+  rw [peek_eq] at h
+  exact foldl_peekF_none k.heap e h
+
+/-- what one step does to the heap: the popped entry goes, the spawned
+processes enter URGENT at the current time, the yielded timeout enters NORMAL
+with a fresh id -/
+theorem step_spec (h : Handler σ) (k k' : KState σ) (e : HEntry) (hp : k.peek = some e)
+    (hs : k.step h = some k') (hfresh : ∀ x ∈ k.heap, x.eid < k.eid) :
+    k'.st = (h k.st e.pid e.time).1 ∧
+    (∀ x ∈ k.heap.erase e, x ∈ k'.heap) ∧
+    (∀ x ∈ k'.heap, x.eid < k'.eid) ∧
+    ∃ eid2, k.eid ≤ eid2 ∧
+      (∀ x ∈ k'.heap, x ∈ k.heap.erase e ∨
+        (x.time = e.time ∧ x.prio = 0 ∧ x.pid ∈ (h k.st e.pid e.time).2.1) ∨
+        (∃ d, (h k.st e.pid e.time).2.2 = some d ∧ x = ⟨e.time + d, 1, eid2, e.pid⟩)) ∧
+      (∀ d, (h k.st e.pid e.time).2.2 = some d → ⟨e.time + d, 1, eid2, e.pid⟩ ∈ k'.heap) := by
+  rw [step_eq h k e hp] at hs
+  have hf1 : ∀ x ∈ k.heap.erase e, x.eid < k.eid := fun x hx => hfresh x (List.mem_of_mem_erase hx)
+  obtain ⟨hP1, hP2⟩ := pushInits_fresh (h k.st e.pid e.time).2.1 (k.heap.erase e) k.eid e.time hf1
+  have hsub := pushInits_sub (h k.st e.pid e.time).2.1 (k.heap.erase e) k.eid e.time
+  have hmem := pushInits_mem (h k.st e.pid e.time).2.1 (k.heap.erase e) k.eid e.time
+  cases hy : (h k.st e.pid e.time).2.2 with
+  | none =>
+    simp only [hy] at hs
+    cases hs
+    refine ⟨rfl, hsub, hP1, _, hP2, ?_, ?_⟩
+    · intro x hx
+      rcases hmem x hx with h1 | h1
+      · exact Or.inl h1
+      · exact Or.inr (Or.inl h1)
+    · intro d hd; cases hd
+  | some d =>
+    simp only [hy] at hs
+    cases hs
+    refine ⟨rfl, fun x hx => List.mem_append_left _ (hsub x hx), ?_, _, hP2, ?_, ?_⟩
+    · intro x hx
+      rcases List.mem_append.mp hx with hx | hx
+      · have := hP1 x hx; simp only; omega
+      · simp only [List.mem_singleton] at hx; subst hx; simp
+    · intro x hx
+      rcases List.mem_append.mp hx with hx | hx
+      · rcases hmem x hx with h1 | h1
+        · exact Or.inl h1
+        · exact Or.inr (Or.inl h1)
+      · simp only [List.mem_singleton] at hx
+        exact Or.inr (Or.inr ⟨d, rfl, hx⟩)
+    · intro d' hd
+      cases hd
+      exact List.mem_append_right _ (List.mem_singleton.mpr rfl)
+
+end KState
+
+/-! ### the invariant -/
+
+open KState
+
+/-- **The monitor comes first.**  There is a heap entry `m` for the monitor
+(pid 0) such that every other entry `x` whose process is not a `do_work` body
+is either still pending at the instant just before `m` (`x.time + 1 = m.time`:
+the monitor has already run at that instant and waits for the next one), or is
+scheduled at the monitor's own time, *after* the monitor in the event order. -/
+structure MonFirst (k : SimState) : Prop where
+  mon : k.st.isMon
+  fresh : ∀ x ∈ k.heap, x.eid < k.eid
+  first : ∃ m ∈ k.heap, m.pid = 0 ∧ m.prio ≤ 1 ∧
+    ∀ x ∈ k.heap, x ≠ m → ¬ k.st.isDW x.pid →
+      (x.time + 1 = m.time ∨ (x.time = m.time ∧ m.lt x = true))
+
+theorem MonFirst.step (env : SimEnv) (k k' : SimState) (inv : MonFirst k)
+    (hs : k.step (simHandler env) = some k') : MonFirst k' := by
+  cases hp : k.peek with
+  | none => simp [KState.step, hp] at hs
+  | some e =>
+    obtain ⟨he, hleast⟩ := peek_spec k e hp
+    obtain ⟨hst, hkeep, hfresh', eid2, heid2, hnew, hto⟩ :=
+      step_spec (simHandler env) k k' e hp hs inv.fresh
+    obtain ⟨m, hm, hmpid, hmprio, hfirst⟩ := inv.first
+    have hmon' : k'.st.isMon := by rw [hst]; exact simHandler_isMon env _ _ _ inv.mon
+    have hdw' : ∀ X, ¬ k'.st.isDW X → ¬ k.st.isDW X := by
+      intro X hX hd
+      apply hX
+      rw [hst]
+      exact simHandler_isDW env _ _ _ X hd
+    refine ⟨hmon', hfresh', ?_⟩
+    by_cases hem : e = m
+    · -- the monitor itself is resumed: nothing at an earlier position was left
+      subst hem
+      have hmm := simHandler_mon env k.st e.time inv.mon
+      rw [hmpid] at hnew hto
+      rw [hmm.1, hmm.2] at hnew
+      rw [hmm.2] at hto
+      refine ⟨⟨e.time + 1, 1, eid2, 0⟩, hto 1 rfl, rfl, Nat.le_refl _, ?_⟩
+      intro x hx hxm hxdw
+      rcases hnew x hx with h1 | ⟨_, _, h1⟩ | ⟨d, hd, hxd⟩
+      · left
+        show x.time + 1 = e.time + 1
+        have hxh : x ∈ k.heap := List.mem_of_mem_erase h1
+        by_cases hxe : x = e
+        · rw [hxe]
+        · rcases hfirst x hxh hxe (hdw' _ hxdw) with h2 | ⟨h2, _⟩
+          · exfalso
+            have := hleast x hxh
+            rw [lt_false_iff] at this
+            grind
+          · rw [h2]
+      · cases h1
+      · cases hd
+        exact absurd hxd hxm
+    · -- another event: the monitor's entry stays where it is
+      have hmk : m ∈ k'.heap := hkeep m ((List.mem_erase_of_ne (Ne.symm hem)).mpr hm)
+      refine ⟨m, hmk, hmpid, hmprio, ?_⟩
+      -- if the popped event is an ordinary process, the monitor has already run at this instant
+      have hpos : ¬ k.st.isDW e.pid → e.time + 1 = m.time := by
+        intro hedw
+        rcases hfirst e he hem hedw with h2 | ⟨_, h2⟩
+        · exact h2
+        · rw [hleast m hm] at h2; cases h2
+      intro x hx hxm hxdw
+      rcases hnew x hx with h1 | ⟨h1, _, h2⟩ | ⟨d, hd, hxd⟩
+      · exact hfirst x (List.mem_of_mem_erase h1) hxm (hdw' _ hxdw)
+      · left
+        by_cases hedw : k.st.isDW e.pid
+        · rw [simHandler_quiet env k.st e.pid e.time hedw] at h2; cases h2
+        · rw [h1]; exact hpos hedw
+      · have hedw : ¬ k.st.isDW e.pid := by
+          have := hdw' _ hxdw
+          rw [hxd] at this
+          exact this
+        have hme : m.eid < eid2 := Nat.lt_of_lt_of_le (inv.fresh m hm) heid2
+        have ht := hpos hedw
+        rcases simHandler_unit env k.st e.pid e.time hedw d hd with h1 | h1
+        · right
+          subst h1 hxd
+          refine ⟨ht, ?_⟩
+          rw [lt_iff]
+          simp only
+          right
+          refine ⟨ht.symm, ?_⟩
+          omega
+        · left
+          subst h1 hxd
+          simp only
+          grind
+
+/-- Reading of the invariant at the moment an event is popped: if the next
+event belongs to a process that is not a `do_work` body, then it is the
+monitor's own wake-up, or the monitor has already been resumed at this very
+instant (its next wake-up is one step later). -/
+theorem MonFirst.next (k : SimState) (inv : MonFirst k) (e : HEntry) (hp : k.peek = some e)
+    (hdw : ¬ k.st.isDW e.pid) :
+    ∃ m ∈ k.heap, m.pid = 0 ∧ (e = m ∨ m.time = e.time + 1) := by
+  obtain ⟨he, hleast⟩ := peek_spec k e hp
+  obtain ⟨m, hm, hmpid, _, hfirst⟩ := inv.first
+  refine ⟨m, hm, hmpid, ?_⟩
+  by_cases hem : e = m
+  · exact Or.inl hem
+  · right
+    rcases hfirst e he hem hdw with h2 | ⟨_, h2⟩
+    · exact h2.symm
+    · rw [hleast m hm] at h2; cases h2
+
+/-- … and every process that is started or rescheduled meanwhile comes after
+the monitor: no entry of a process other than a `do_work` body precedes the
+monitor's entry at the monitor's own time. -/
+theorem MonFirst.none_before (k : SimState) (inv : MonFirst k) :
+    ∃ m ∈ k.heap, m.pid = 0 ∧ ∀ x ∈ k.heap, x ≠ m → ¬ k.st.isDW x.pid → x.time = m.time →
+      m.lt x = true := by
+  obtain ⟨m, hm, hmpid, _, hfirst⟩ := inv.first
+  refine ⟨m, hm, hmpid, ?_⟩
+  intro x hx hxm hxdw ht
+  rcases hfirst x hx hxm hxdw with h2 | ⟨_, h2⟩
+  · exfalso; grind
+  · exact h2
+
+/-! ### it holds initially and along every run -/
+
+theorem Sys.start_isMon (s : Sys) (h1 : s.procs = []) (h2 : s.nextPid = 0) : s.start.isMon := by
+  simp [Sys.start, Sys.isMon, Sys.spawn, Sys.proc?, h1, h2]
+
+theorem SimState.start_heap (s : Sys) :
+    (SimState.start s).heap =
+      [⟨0, 0, 0, 0⟩, ⟨0, 0, 1, 1⟩, ⟨0, 0, 2, 2⟩, ⟨0, 0, 3, 3⟩, ⟨0, 0, 4, 4⟩] ∧
+    (SimState.start s).eid = 5 := by
+  have : List.range 5 = [0, 1, 2, 3, 4] := by decide
+  simp [SimState.start, this, pushInits]
+
+theorem MonFirst.init (s : Sys) (h1 : s.procs = []) (h2 : s.nextPid = 0) :
+    MonFirst (SimState.start s) := by
+  obtain ⟨hh, he⟩ := SimState.start_heap s
+  refine ⟨Sys.start_isMon s h1 h2, ?_, ⟨0, 0, 0, 0⟩, ?_, rfl, by simp, ?_⟩
+  · intro x hx
+    rw [hh] at hx
+    rw [he]
+    simp only [List.mem_cons, List.not_mem_nil, or_false] at hx
+    rcases hx with rfl | rfl | rfl | rfl | rfl <;> simp
+  · rw [hh]; simp
+  · intro x hx hne _
+    rw [hh] at hx
+    simp only [List.mem_cons, List.not_mem_nil, or_false] at hx
+    rcases hx with rfl | rfl | rfl | rfl | rfl
+    · exact absurd rfl hne
+    all_goals right; simp [HEntry.lt]
+
+theorem MonFirst.collate (k : SimState) (inv : MonFirst k) :
+    MonFirst { k with st := k.st.collate } :=
+  ⟨inv.mon, inv.fresh, inv.first⟩
+
+theorem MonFirst.runsTo (env : SimEnv) (u : Time) (k k' : SimState) (inv : MonFirst k)
+    (hr : RunsTo (simHandler env) u k k') : MonFirst k' := by
+  induction hr with
+  | idle k _ => exact inv
+  | stop k e _ _ => exact inv
+  | step k k1 k2 e _ _ hs _ ih => exact ih (MonFirst.step env k k1 inv hs)
+
+theorem MonFirst.runUntil (env : SimEnv) (u : Time) (fuel : Nat) (k : SimState)
+    (inv : MonFirst k) : MonFirst (SimState.runUntil env u fuel k) := by
+  induction fuel generalizing k with
+  | zero => exact inv
+  | succ n ih =>
+    unfold SimState.runUntil
+    repeat' split
+    all_goals first
+      | exact inv
+      | (rename_i k1 hs; exact ih k1 (MonFirst.step env k k1 inv hs))
+
+/-- the invariant holds at every event of `start(runtime=u)` and of every
+later `resume(until=v)` -/
+theorem MonFirst.startUntil (env : SimEnv) (s : Sys) (u fuel : Nat) (h1 : s.procs = [])
+    (h2 : s.nextPid = 0) : MonFirst (SimState.startUntil env s u fuel) := by
+  unfold SimState.startUntil
+  have := MonFirst.runUntil env u fuel _ (MonFirst.init s h1 h2)
+  simp only
+  split
+  · exact this
+  · exact MonFirst.collate _ this
+
+theorem MonFirst.resumeUntil (env : SimEnv) (k : SimState) (u fuel : Nat) (inv : MonFirst k) :
+    MonFirst (SimState.resumeUntil env k u fuel) := by
+  unfold SimState.resumeUntil
+  have := MonFirst.runUntil env u fuel _ inv
+  simp only
+  split
+  · exact this
+  · exact MonFirst.collate _ this
 
 end Topsim
